@@ -31,6 +31,14 @@ func VerifC02dCommandStream(k int) {
 	if k > 2 {
 		cuts = append(cuts, ends[1], ends[1]+7)
 	}
+	for i := range cuts { // (with a single command some points lie behind the end)
+		if cuts[i] > len(wire) {
+			cuts[i] = len(wire)
+		}
+		if cuts[i] < 0 {
+			cuts[i] = 0
+		}
+	}
 	a := cuts[verifrt.Choose("cut1", len(cuts))]
 	b := cuts[verifrt.Choose("cut2", len(cuts))]
 	if a > b {
